@@ -436,11 +436,10 @@ Proof.
     as (E1 & es & E2).
   exists es. repeat split; auto.
   unfold decode_gopo. rewrite gopo_prefix.
-  assert (Hkey : skipn (length [71; 111; 112; 111; 95]%N)
-                   (gopo ++ sep_of (orecv d) nm ++ match orecv d with Some r => r ++ sep_of (orecv d) nm | None => [] end ++ nm)
-                 = skipn 1 (sep_of (orecv d) nm) ++ match orecv d with Some r => r ++ sep_of (orecv d) nm | None => [] end ++ nm).
-  { unfold gopo, sep_of. destruct (has_us nm || match orecv d with Some r => has_us r | None => false end); reflexivity. }
-  rewrite Hkey. rewrite (check_type_method_roundtrip d nm Hname). cbn [bind].
+  assert (Hkey : forall rest, skipn (length [71; 111; 112; 111; 95]%N) (71 :: 111 :: 112 :: 111 :: sep_of (orecv d) nm ++ rest)%N
+                              = skipn 1 (sep_of (orecv d) nm) ++ rest).
+  { intros rest. unfold sep_of. destruct (has_us nm || match orecv d with Some r => has_us r | None => false end); reflexivity. }
+  rewrite Hkey. rewrite (check_type_method_roundtrip d nm Hname). cbn [bind]. subst ons.
   rewrite split_join.
   - rewrite E1, E2. cbn [bind]. reflexivity.
   - destruct (ocands d); [discriminate|discriminate].
